@@ -457,6 +457,7 @@ WITNESSES = [
     ("b_ukfc 1 2 1 1 1 2 1 1 1  1 1 1 2  2 0 0  2 0 2 2 2  1 1 1", "ukf_add"),            # unsafe_ukf_quaternion_state_counterexample
     ("b_ukfc 1 2 3 0 0 2 3 0 0  3 0 0 3  0 1 1  4 0 3 4 3  1 1 1", "ukf_add"),            # unsafe_ukf_quaternion_measurement_counterexample
     ("b_ukfc 2 2 1 1 1 2 1 1 1  1 1 1 2  4 0 0  4 0 4 4 2  1 1 1  2 1", "sukf"),          # unsafe_sukf_quaternion_state_counterexample
+    ("b_likq 2 0 2 4 2 0 1", "likq"), ("b_likq 2 0 2 4 2 1 1", "likq"),                            # unsafe_sukf_likelihood_noise_shrunk_counterexample
     ("b_gpfmove 3 3", "gpfmove"), ("b_gpfmove 4 3", "gpfmove"), ("b_gpfmove 1 3", "gpfmove"),   # fixed by 1b09d3a
     ("b_grid 1 1 1 2 0 0", "grid"), ("b_grid 2 2 4 6 0 0", "grid"),                               # fixed by 8ea2579
     ("b_ssm 1 0 2 2", "ssm"),                                                                       # fixed by 4751db6
@@ -873,6 +874,31 @@ def gen_static_sequences(ctx):
     seq += a + b + a
     return [(" ".join(ln.split()), group_of(ln)) for ln in seq]
 
+
+def gen_likelihood_query(ctx):
+    """round 4 (b): getLikelihood() after the time-varying measurement model changed its size — at once, after a skipped correct(), after a real
+    correct() — for UKF (both constructors), SUKF (every sub-size dividing both sizes, full and reduced noise covariance) and KF"""
+    out = []
+    for sub in (1, 2, 3):
+        sizes = (sub, 2 * sub, 3 * sub)
+        for m1 in sizes:
+            for m2 in sizes:
+                for red in (0, 1):
+                    for how in (0, 1, 2):
+                        for K in (1, 2):
+                            out.append(("b_likq 2 %d %d %d %d %d %d" % (red, sub, m1, m2, how, K), "likq"))
+    out.append(("b_likq 2 0 3 4 2 0 1", "likq"))        # sub-size dividing neither: nothing is ever corrected
+    out.append(("b_likq 2 0 0 4 2 0 1", "likq"))        # sub-size 0: outside the precondition
+    for kind in (0, 1, 3):
+        for m1 in (1, 2, 4):
+            for m2 in (1, 2, 4):
+                for how in (0, 1, 2):
+                    out.append(("b_likq %d 0 1 %d %d %d 2" % (kind, m1, m2, how), "likq"))
+    return out
+
+
+GENERATORS.append(gen_likelihood_query)
+
 # --------------------------------------------------------------------------- running
 
 def par_harness(binary, lines, jobs=8):
@@ -964,6 +990,10 @@ def finding_key(line, group):
         return "sukf-correct:abort-on-valid"
     if t[0] == "b_psaddself":
         return "psadd-self-alias"
+    if t[0] == "b_likq":
+        kind, red, m1, m2, how = int(t[1]), int(t[2]), int(t[4]), int(t[5]), int(t[6])
+        # SUKFCorrection::getLikelihood reads the model's noise covariance at query time: full mode, members of an earlier, larger measurement
+        return "sukf-likelihood-noise-shrunk" if (kind == 2 and not red and how != 2 and m2 < m1) else "likelihood-query:abort-on-valid"
     if t[0] == "b_handover":
         names = ["KFPrediction", "UKFPrediction", "GPFPrediction", "DrawParticles", "BootstrapCorrection", "GPFCorrection", "ResamplingWithPrior", "LTIStateModel",
                  "EstimatesExtraction", "UKFCorrection", "SUKFCorrection", "KFCorrection", "ParticleSet", "GaussianMixture", "Resampling"]
@@ -1188,6 +1218,7 @@ ENTRY = {
     "gfilter": "GaussianFilter::skip + filtering steps (KFPrediction, KFCorrection; real thread)",
     "pfilter": "ParticleFilter::skip + SIS filtering steps (real thread)",
     "defaults": "default (throwing) virtuals of StateModel / MeasurementModel / GaussianCorrection through shipped classes",
+    "likq": "getLikelihood() after the measurement model changed its size (at once / after a skipped correct() / after correct())",
     "psaddself": "ParticleSet::operator+= (a += a)", "gmaugalias": "GaussianMixture::augmentWithNoise(own covariance block)",
 }
 
